@@ -223,6 +223,6 @@ package files
 //@   loop 1 (contentMap map[string]*Content, res Contents)
 //@     invariant [C11 C12 C07] plan-map-ok: planMapOK(contentMap, !mtime.IsZero())
 //@     invariant [C11 C12 C01 C07] plan-slice-ok: SpecPlanSliceOK(res, !mtime.IsZero())
-//@     invariant [C11 C12] accumulator-fresh: res == nil || fresh(res)
+//@     invariant [C11 C12] accumulator-fresh: fresh(res)
 //@     invariant [C06] no-failure-so-far: !flag("failed")
 //@     invariant [C07] no-clock-so-far: !flag("clockRead") && !flag("envRead")
